@@ -211,6 +211,9 @@ func (c *Ctx) musxRun() map[string]*simpleVerdict {
 			}
 			set := c.lookupMethod(tt, "SetTemplate")
 			eval := c.lookupMethod(tt, "EvaluateWithVariables")
+			setDef := c.lookupMethod(tt, "SetDefaultVariables")
+			getDef := c.lookupMethod(tt, "DefaultVariables")
+			tmplD, _ := m.Call(ctor)
 			mkMap := func(vars map[string]string) *mMap {
 				mm := &mMap{k: map[string]mv{}, v: map[string]mv{}}
 				var keys []string
@@ -304,6 +307,44 @@ func (c *Ctx) musxRun() map[string]*simpleVerdict {
 					r, out := m.Call(eval, tmpl, mkMap(varSets[vi]))
 					if out.kind == "ok" && mRender(r) != first && vp.bad == "" {
 						vp.bad = fmt.Sprintf("%s with variables %q renders %s the first time and %s after renderings with other variable sets", show, varSets[vi], first, mRender(r))
+					}
+				}
+				// an instance with default variables: a variable map given to the rendering is used alone - also an
+				// empty one - and never mixed with, or written into, the defaults
+				if i%5 == 0 {
+					if _, out := m.Call(setDef, tmplD, mkMap(map[string]string{"a": "D", "b": "E", "if": "F"})); out.kind == "ok" {
+						if e, out := m.Call(set, tmplD, src); out.kind == "ok" {
+							if _, isNil := e.(mNilT); isNil {
+								for _, vars := range []map[string]string{{}, {"b": "w"}, {"A": ""}} {
+									m.steps = 0
+									vr.runs++
+									r, out := m.Call(eval, tmplD, mkMap(vars))
+									tp, ok := r.(mTuple)
+									if out.kind == "panic" && vr.bad == "" {
+										vr.bad = fmt.Sprintf("%s with default variables set and %q given: rendering panics: %s", show, vars, out.why)
+									}
+									if out.kind != "ok" || !ok {
+										continue
+									}
+									if got, ok := tp[0].(string); ok {
+										if want := musRender(trees[i], vars); got != want && vr.bad == "" {
+											vr.bad = fmt.Sprintf("%s on an instance whose default variables are a=D, b=E, if=F, rendered with the variables %q, gives %q; with exactly the given variables it is %q", show, vars, got, want)
+										}
+									}
+								}
+								// and the defaults themselves are still what was set
+								if dv, out := m.Call(getDef, tmplD); out.kind == "ok" {
+									if dm, ok := dv.(*mMap); ok && dm != nil {
+										for _, kv := range [][2]string{{"a", "D"}, {"b", "E"}, {"if", "F"}} {
+											ks, _ := mapKey(kv[0])
+											if got, _ := dm.v[ks].(string); got != kv[1] && vu.bad == "" {
+												vu.bad = fmt.Sprintf("%s: after renderings with other variable maps the default variable %q holds %q instead of %q", show, kv[0], got, kv[1])
+											}
+										}
+									}
+								}
+							}
+						}
 					}
 				}
 				if ch := changedFields(tt, instBefore, mFieldFingerprints(tmpl)); len(ch) > 0 && vp.bad == "" {
